@@ -71,10 +71,17 @@ def cases(tier, seed):
         if h % 6 == 1:
             case["scale"] = 4                    # float64 value columns (multiples of 0.25), also through the two-pass merge
             case["max_merge"] = rng.choice([1, 2, 200])
+        if case["form"] == "frame":
+            case["labels"] = ["default", "perm", "offset", "default"][h % 4]
+        case["id_dtype"] = ["int64", "int32", "int16", "uint8", "int8"][h % 5]
         if h % 9 == 4 and ncols == 1:
             # duplicate checking switched off: a pixel may repeat INSIDE a chunk; the result must still be the aggregate
+            # (a chunk never holds more rows than the matrix has pixels: the per-chunk temporary collection is sized for that)
             case["dupcheck"] = False
-            case["chunks"] = [sorted(ch + [list(p) for p in rng.sample(ch, min(len(ch), 2))]) for ch in case["chunks"]]
+            nbn = len(table)
+            cap = nbn * (nbn + 1) // 2 if mode == "symm" else nbn * nbn
+            case["chunks"] = [sorted(ch + [list(p) for p in rng.sample(ch, max(0, min(len(ch), 2, cap - len(ch))))])
+                              for ch in case["chunks"]]
         yield "mg.unordered", case
     # (3) merge_breakpoints on index families with leading / trailing empty rows and oversized rows
     vecs = list(itertools.product((0, 1, 3), repeat=4))
